@@ -4,6 +4,8 @@ import PdshVerif.Dshbak.Input
 import PdshVerif.Dshbak.CoalesceLemmas
 import PdshVerif.Dshbak.CompressLemmas
 import PdshVerif.Dshbak.SpecLemmas
+import PdshVerif.Dshbak.HeaderExpands
+import PdshVerif.Dshbak.Rechunk
 
 /-!
 # C19  dshbak regroups output losslessly; its host headers mean what pdsh means
@@ -19,14 +21,18 @@ under exactly one header, merged iff identical, every body once);  the structure
 `compressGroups g` denotes, under the small expander `hostsOf`, a permutation of the group `g`
 (for groups without a stem clash);  both together: the -c output with every header replaced by what
 it denotes satisfies `Spec.CoalescedOk`.
-Not proved here:  that the TEXT `renderHeader gs` is parsed by pdsh into the structure `gs` (the
-check decides that on the real `pdsh -Q -w HEADER` for every generated header, and compares
-`hostsOf` with pdsh's answer);  hostlist.c's limits (F19-LONGRUN);  Perl itself.
+`header_expands`: the header TEXT of the repaired script, read by C01's model of `hostlist_create`
+(any variant of hostlist.c), yields exactly the group — the bridge between the Perl compressor and
+the C parser as a theorem (`Dshbak/HostlistBridge.lean`, `HeaderExpands.lean`).
+Not proved here:  Perl itself and the C parser are tied to their models by the checks (C19 runs the
+real `pdsh -Q -w HEADER` on every generated header as correspondence; C01 ties hostlist.c to its
+model);  for the UNREPAIRED script the text-level statement is false (F19-EMPTYSTEM, F19-LONGRUN).
 Genuine defects mirrored by the model, each with a switchable repaired variant that the check
 selects by probing the real script: D21 (`unterminated_dropped` / `repaired_keeps_last`),
 F19-EMPTYSTEM (`emptystem_witness`; excluded from `compress_expands` by `NoStemClash`, no exclusion
 left in `compress_expands_repaired`), F19-LONGRUN (`longrun_witness`, `ranges_within_limit`;
-`compress_expands` holds for every limit).
+`compress_expands` holds for every limit), F19-MANYRANGES (`manyranges_witness`,
+`ranges_per_bracket`).
 -/
 namespace PdshVerif.Props.C19
 open PdshVerif.Dshbak
@@ -142,9 +148,21 @@ theorem compress_expands_repaired (lim : Option Nat) (g : List Str) (hnd : g.Nod
 
 /-- with F19-LONGRUN repaired no range element of a header stands for more than `m` consecutive
 numbers (`m` = 16384 = hostlist.c's MAX_RANGE), in either form of `compress` -/
-theorem ranges_within_limit (m : Nat) (hm : 0 < m) (stemFix : Bool) (tags : List Str) :
-    ∀ grp ∈ compressV (some m) stemFix tags, ∀ e ∈ grp, ∀ r ∈ e.runs, r.hi - r.lo < m :=
-  compressV_within m hm stemFix tags
+theorem ranges_within_limit (m : Nat) (hm : 0 < m) (mr : Option Nat) (stemFix : Bool) (tags : List Str) :
+    ∀ grp ∈ compressV (some m) mr stemFix tags, ∀ e ∈ grp, ∀ r ∈ e.runs, r.hi - r.lo < m :=
+  compressV_within m hm mr stemFix tags
+
+/-- with F19-MANYRANGES repaired no bracket of a header holds more than `k` range elements
+(`k` = 10240 = hostlist.c's MAX_RANGES), and cutting a prefix into several brackets changes nothing
+the header denotes -/
+theorem ranges_per_bracket (lim : Option Nat) (k : Nat) (hk : 0 < k) (stemFix : Bool) (tags : List Str) :
+    (∀ grp ∈ compressV lim (some k) stemFix tags, ∀ e ∈ grp, e.runs.length ≤ k) ∧
+    hostsOf (compressV lim (some k) stemFix tags) = hostsOf (compressV lim none stemFix tags) := by
+  refine ⟨fun grp hgrp e' he' => ?_, by simp only [compressV, hostsOf_rechunk]⟩
+  obtain ⟨g, _, e, _, hsp⟩ := mem_rechunk hgrp he'
+  simp only [splitElem, List.mem_map] at hsp
+  obtain ⟨c, hc, rfl⟩ := hsp
+  exact piecesOf_len k _ [] (by simpa using hk) c hc
 
 /-- -c mode with every header replaced by what it denotes satisfies the specification: every host
 under exactly one header, merged iff identical outputs, each body once, and each header stands for
@@ -178,6 +196,48 @@ theorem coalesced_headers_spec_repaired (rep : Bool) (ls : List InLine) (h : ∀
     rw [List.flatMap_def]
     exact List.sublist_flatten_of_mem (List.mem_map.mpr ⟨b, hb, rfl⟩)
   exact compress_expands_repaired lim b.1 (hsub.nodup sp.once) _ (horder b hb)
+
+/-- HEADER_EXPANDS (the bridge to C01's parser model, `Hostlist.create` = `hostlist_create`).
+For the script as repaired (F19-EMPTYSTEM, F19-LONGRUN with any limit `m ≤ 16384`), every variant
+`cfg` of hostlist.c (as found, as probed from /repo, repaired), every group `g` in C19's domain
+(`HeaderDom`: distinct non-empty names without separator or bracket characters, ≤ 1000 bytes,
+numeric parts < 2^64-1; `hsize`: ≤ 10240 hosts, or F19-MANYRANGES repaired and then any number) and
+every order `gs` of the suffix groups: the parser applied to the header TEXT succeeds and the list
+it builds denotes exactly the hosts of the group, as a multiset.  This replaces "decided per case by the real `pdsh -Q -w HEADER`" (still run by the check
+as correspondence) by a theorem about the two models. -/
+theorem header_expands (cfg : PdshVerif.Hostlist.Cfg) (m : Nat) (hm : 0 < m)
+    (hm16 : m ≤ PdshVerif.Hostlist.Spec.RANGE_LIMIT) (mr : Option Nat) (g : List Str) (hd : HeaderDom g)
+    (hsize : g.length ≤ PdshVerif.Hostlist.Spec.RANGES_LIMIT ∨
+      ∃ k, mr = some k ∧ 0 < k ∧ k ≤ PdshVerif.Hostlist.Spec.RANGES_LIMIT)
+    (gs : List (List Elem)) (hgs : gs.Perm (compressV (some m) mr true g)) :
+    ∃ h, PdshVerif.Hostlist.create cfg (renderHeader gs) = .ok h ∧ h.Good ∧ h.hosts.Perm g :=
+  create_header cfg m hm hm16 mr g hd hsize gs hgs
+
+/-- ... and therefore the whole -c report of the repaired script, with every header TEXT read by the
+parser model, satisfies the specification (every host under exactly one header, merged iff
+identical, each body once, each header standing for exactly its hosts) -/
+theorem coalesced_text_spec (cfg : PdshVerif.Hostlist.Cfg) (m : Nat) (hm : 0 < m)
+    (hm16 : m ≤ PdshVerif.Hostlist.Spec.RANGE_LIMIT) (mr : Option Nat)
+    (rep : Bool) (ls : List InLine) (h : ∀ l ∈ ls, l.WF) (ks : List Str)
+    (hks : ks.Perm (keys (table rep ls)))
+    (order : List Str → List (List Elem))
+    (horder : ∀ b ∈ coalesce ks (table rep ls), (order b.1).Perm (compressV (some m) mr true b.1))
+    (hdom : ∀ b ∈ coalesce ks (table rep ls), HeaderDom b.1 ∧
+      (b.1.length ≤ PdshVerif.Hostlist.Spec.RANGES_LIMIT ∨
+        ∃ k, mr = some k ∧ 0 < k ∧ k ≤ PdshVerif.Hostlist.Spec.RANGES_LIMIT))
+    (parsed : List Str → List Str)
+    (hparsed : ∀ b ∈ coalesce ks (table rep ls), ∃ hl,
+      PdshVerif.Hostlist.create cfg (renderHeader (order b.1)) = .ok hl ∧ parsed b.1 = hl.hosts) :
+    Spec.CoalescedOk (recsOf ls)
+      ((coalesce ks (table rep ls)).map fun b => (parsed b.1, b.2)) := by
+  have sp := coalesce_spec rep ls h ks hks
+  apply sp.perm_heads (fun b => parsed b.1)
+  intro b hb
+  obtain ⟨hl, h1, h2⟩ := hparsed b hb
+  obtain ⟨hl', h1', _, h3⟩ := header_expands cfg m hm hm16 mr b.1 (hdom b hb).1 (hdom b hb).2 _ (horder b hb)
+  rw [h1] at h1'
+  cases h1'
+  rw [h2]; exact h3
 
 /-! ### defects of the unchanged script, mirrored by the model -/
 
@@ -226,5 +286,19 @@ example : renderHeader (compressGroups none (strSort ["n08-ib".toList, "n09-ib".
 
 example : hostsOf (compressGroups none (strSort ["n08-ib".toList, "n09-ib".toList, "n10-ib".toList])) =
     ["n08-ib".toList, "n09-ib".toList, "n10-ib".toList] := by decide
+
+example : HeaderDom (["n08-ib", "n09-ib", "n10-ib", "foo", "0", "7"].map String.toList) :=
+  ⟨by decide, by decide, by decide⟩
+
+/-- F19-MANYRANGES in miniature (2 elements per bracket instead of 10240) -/
+theorem manyranges_witness :
+    renderHeader (compressV none none true (["n1", "n3", "n5"].map String.toList)) = "n[1,3,5]".toList ∧
+    renderHeader (compressV none (some 2) true (["n1", "n3", "n5"].map String.toList)) =
+      "n[1,3],n5".toList := by
+  decide
+
+example : renderHeader (compressGroupsFixed (some 16384)
+    (strSort (["n08-ib", "n09-ib", "n10-ib", "foo", "1foo"].map String.toList))) =
+    "foo,1foo,n[08-10]-ib".toList := by decide
 
 end PdshVerif.Props.C19
